@@ -649,6 +649,24 @@ def run(ck: core.Check):
     }
     for msg in table.get("unobservable", []):
         ck.broken("correspondence", "C13 element-type functions not observable", msg)
+    # inventory of the type layer (classes, deciding overrides, decorators) -> obligation type_layer_inventory;
+    # digests of the covered functions vs the committed baseline: a changed function body escalates the sweep
+    source_changed = []
+    try:
+        import json as _json
+        from pathlib import Path
+
+        from translator import type_overrides
+
+        inv = type_overrides.generate()
+        base = _json.loads((Path(__file__).resolve().parent.parent / "c13_source_baseline.json").read_text())["digests"]
+        source_changed = sorted(k for k in set(base) | set(inv["digests"]) if base.get(k) != inv["digests"].get(k))
+        ck.cov["type_layer_inventory"] = {"classes": [c[0] for c in inv["classes"]], "functions_digested": len(inv["digests"]),
+                                          "changed_since_baseline": source_changed}
+        if source_changed:
+            ck.notes.append(f"covered functions differ from the committed baseline: {source_changed} - sweeping with the thorough bounds")
+    except Exception as e:  # noqa: BLE001
+        ck.broken("generated", "C13 type-layer inventory", f"{type(e).__name__}: {e}")
     ck.lean(["SpoxModel.Props.C13"], audit="SpoxModel.Audit.C13")
     if ck.thorough:
         ck.leanchecker(["SpoxModel.Props.C13"])
@@ -656,8 +674,8 @@ def run(ck: core.Check):
     env = Env(table)
     rng = ck.rng
     np = env.np
-    R = ck.pick(2, 3)  # rank bound of the exhaustive tensor sweep
-    RN = ck.pick(1, 2)  # rank bound under nestings
+    R = 3 if source_changed else ck.pick(2, 3)  # rank bound of the exhaustive tensor sweep
+    RN = 2 if source_changed else ck.pick(1, 2)  # rank bound under nestings
     E = ["cls:numpy.float32", "cls:numpy.int64"]
     shapes = shapes_upto(R)
     nshapes = shapes_upto(RN)
@@ -993,8 +1011,12 @@ def run(ck: core.Check):
         ShapeError = internal(env.sh, "ShapeError")
         items, reals, where = [], [], []
         bad_seen = set()
-        for i, a in enumerate(shapes):
-            for j, b in enumerate(shapes):
+        # quick tier: ranks <= 2 (also when the sweep itself was escalated to rank 3)
+        sel = [i for i, sh in enumerate(shapes) if ck.thorough or sh is None or len(sh) <= 2]
+        for i in sel:
+            a = shapes[i]
+            for j in sel:
+                b = shapes[j]
                 want = base[i * m + j]
                 for k, how in enumerate(SHAPE_SPELLINGS):
                     if (j, how) not in objs or (how == "Shape" and (i + j) % 3 == 0):
@@ -1045,6 +1067,19 @@ def run(ck: core.Check):
                         note("bc", f"Shape{a}.broadcast({b} written as {how}): model {x} real {y}")
                         if mism["bc"] > 3:
                             break
+            # maybe_rank / rank
+            real_r = []
+            for i, a in enumerate(shapes):
+                me = selfs[(i, "Shape")]
+                mr = me.maybe_rank
+                try:
+                    rk = me.rank
+                except ShapeError:
+                    rk = None
+                real_r.append(mr if mr == rk else f"maybe_rank={mr} rank={rk}")
+            o = drv.ask_many("C13", [{"op": "rank", "shapes": shapes}])[0]
+            if "error" in o or o["rank"] != real_r:
+                note("bc", f"maybe_rank/rank: model {o.get('rank', o)} real {real_r}"[:400])
             # from_simple / to_simple
             simples = [None] + [list(p) for r in range(3) for p in itertools.product([0, 2, "N", "", None], repeat=r)]
             real_s = []
